@@ -12,10 +12,10 @@ import vlib
 ORACLE = {
     "C01": ["refusal", "rt", "trail", "reload", "counts", "propsback", "load"],
     "C02": ["rt", "trail", "wf", "reload"],
-    "C04": ["refusal", "status", "rt", "trail", "reload", "counts", "offsets", "offpad", "propsback", "load"],
-    "C05": ["offsets", "offpad", "pos", "trail", "propsback", "ef", "ef2", "dcf", "exits"],
+    "C04": ["refusal", "status", "rt", "trail", "reload", "counts", "offsets", "offpad", "propsback", "load", "loadra"],
+    "C05": ["offsets", "offpad", "pos", "trail", "propsback", "ef", "ef2", "dcf", "exits", "loadra"],
     "C06": ["depth", "chunkrefs", "wf"],
-    "C20": ["refusal", "status", "rt", "trail", "reload", "counts", "offsets", "offpad", "propsback", "load", "wf",
+    "C20": ["refusal", "status", "rt", "trail", "reload", "counts", "offsets", "offpad", "propsback", "load", "loadra", "wf",
             "ef", "ef2", "dcf", "exits", "xspec"],
 }
 CORR = {
